@@ -139,8 +139,8 @@ def slot_replay(dunder, sym, reflected):
     lines = ["import sys, os, math", "sys.path.insert(0, os.environ.get('PYVC_REPO', '/repo'))", "import param",
              "class M:",
              "    def __init__(s, v): s.v = v",
-             "    def __matmul__(s, o): return ('mm', s.v, getattr(o, 'v', o))",
-             "    def __rmatmul__(s, o): return ('rmm', getattr(o, 'v', o), s.v)",
+             "    def __matmul__(s, o): return ('mm', s.v, o.v) if isinstance(o, M) else NotImplemented",
+             "    def __rmatmul__(s, o): return ('rmm', o.v, s.v) if isinstance(o, M) else NotImplemented",
              "    def __eq__(s, o): return isinstance(o, M) and o.v == s.v",
              "    __hash__ = None"]
     if sym == "@":
